@@ -870,7 +870,11 @@ def gen_c16b(rng: random.Random) -> Dict[str, Any]:
         tasks.append({"name": f"lt{ti}", "where": rng.choice(["own", "own", "own", "foreign", "shared"]), "entries": entries,
                       "extra_labels": rng.choice([{}, {}, {"x": 1}, {"x": 2}, {"y": "b"}, {"x": 3, "z": [1]}]), "shadowed": rng.random() < 0.2})
     nfire = rng.randint(0, 6)
+    late = None
+    if rng.random() < 0.25:
+        late = {"name": "lt_late", "cron": rng.choice(CRONS), "time_us": rng.choice(times)}
     return {"mode": "label_source", "tasks": tasks, "fire_seed": rng.randint(0, 10 ** 9), "nfire": nfire,
+            "src_startup": rng.random() < 0.5, "late_task": late,
             # relist: list again before every firing; otherwise fire several schedules of one listing (what the
             # scheduler loop does when several one-shots are due in the same poll)
             "relist": rng.random() < 0.5,
@@ -959,7 +963,21 @@ def run_c16b(spec: Dict[str, Any]) -> "tuple[List[Violation], Any]":
     async def main(loop: Any) -> None:
         pending_batch: List[Any] = []
         try:
+            if spec.get("src_startup"):
+                await src.startup()  # what the scheduler does with every source before its first poll
             for step in range(spec["nfire"] + 1):
+                if step == 1 and spec.get("late_task"):
+                    # a task registered while the scheduler is already running (dynamic tasks): it is declared from now on
+                    lt = spec["late_task"]
+                    fn_l = lambda: None  # noqa: E731
+                    fn_l.__name__ = lt["name"]
+                    fn_l.__module__ = "mon.sched_loop"
+                    sched_l = [{"cron": lt["cron"], "args": [9]}, {"time": S.mk_time(lt["time_us"], None)}]
+                    (shared if spec.get("source_on") == "shared" else broker).register_task(fn_l, task_name=lt["name"], schedule=sched_l)
+                    if spec.get("source_on") == "shared":
+                        registered_global.append(lt["name"])
+                    declared[lt["name"]] = sched_l
+                    task_labels[lt["name"]] = {}
                 if spec.get("relist", True) or step == 0 or not pending_batch:
                     listed = await src.get_schedules()
                 else:
